@@ -1,38 +1,77 @@
 package main
 
 import (
+	"bytes"
 	"encoding/hex"
+	"encoding/json"
 	"fmt"
-	"os"
 	"net"
+	"os"
+	"os/exec"
 	"sort"
+	"strings"
 	"syscall"
 	"time"
+	"unsafe"
 
 	"github.com/v-byte-cpu/sx/command"
 )
 
-// Entry 2: run the REAL `sx arp` command inside the namespace for a single host target and watch
-// every interface of the namespace with one AF_PACKET socket (protocol ARP, not bound to a device).
-// The copies the kernel hands to packet sockets when a frame is transmitted (pkttype OUTGOING) say
-// through which interface each ARP request left, with which Ethernet source, sender MAC and sender
-// IP.  Only positive events are used: frames seen.  The command is given --exit-delay 60ms.
+// Entries 2 and 3: run the REAL `sx arp` / `sx icmp` command inside the namespace for a single host
+// target and watch the virtual wires:
+//   * one AF_PACKET socket (all protocols, not bound to a device) sees every frame RECEIVED by an
+//     interface of the namespace; a frame received by one end of a veth pair left through the other
+//     end (sx transmits through a TX ring that bypasses the packet taps of the sending device, so
+//     there are no OUTGOING copies to look at);
+//   * every tun device is attached to (TUNSETIFF) when the child starts, which gives it carrier;
+//     whatever is sent out through a tun device is read from its file descriptor, as raw bytes.
+// Only positive events are used: frames seen.  The command itself runs in a process of its own
+// (same namespace), because the engine of the code under test runs goroutines that cannot be
+// recovered when they crash.  The command is given --exit-delay 60ms.
 
 func htons(v uint16) uint16 { return v<<8 | v>>8 }
 
-type arpFrame struct {
-	ifindex  int
-	outgoing bool
-	ethSrc   []byte
-	sha      []byte
-	spa      []byte
-	tpa      []byte
-	op       int
-	raw      []byte // the ARP body
+type wireFrame struct {
+	ifindex int    // interface that received the frame (veth) or tun it was read from
+	tun     bool   // read from a tun device: raw bytes as written by the sender
+	ethSrc  []byte // nil for tun
+	kind    string // "arp", "icmp", "other"
+	srcIP   []byte // ARP sender protocol address / IPv4 source; nil = absent
+	sha     []byte // ARP sender hardware address
+	dstIP   []byte
+}
+
+var tunFiles = map[int]*os.File{} // ifindex -> attached tun device
+
+func attachTun(name string) (*os.File, error) {
+	fd, err := syscall.Open("/dev/net/tun", syscall.O_RDWR|syscall.O_NONBLOCK, 0)
+	if err != nil {
+		return nil, err
+	}
+	var ifr [40]byte
+	copy(ifr[:15], name)
+	*(*uint16)(unsafe.Pointer(&ifr[16])) = syscall.IFF_TUN | syscall.IFF_NO_PI
+	if _, _, e := syscall.Syscall(syscall.SYS_IOCTL, uintptr(fd), uintptr(syscall.TUNSETIFF), uintptr(unsafe.Pointer(&ifr[0]))); e != 0 {
+		syscall.Close(fd)
+		return nil, e
+	}
+	return os.NewFile(uintptr(fd), "tun:"+name), nil
+}
+
+// attachTuns is called once per child, before the configuration is read back.
+func attachTuns() {
+	ifs, _ := net.Interfaces()
+	for _, f := range ifs {
+		if f.HardwareAddr == nil && f.Flags&net.FlagPointToPoint != 0 && f.Flags&net.FlagLoopback == 0 {
+			if t, err := attachTun(f.Name); err == nil {
+				tunFiles[f.Index] = t
+			}
+		}
+	}
 }
 
 func openCapture() (int, error) {
-	fd, err := syscall.Socket(syscall.AF_PACKET, syscall.SOCK_RAW, int(htons(syscall.ETH_P_ARP)))
+	fd, err := syscall.Socket(syscall.AF_PACKET, syscall.SOCK_RAW, int(htons(syscall.ETH_P_ALL)))
 	if err != nil {
 		return -1, err
 	}
@@ -42,28 +81,83 @@ func openCapture() (int, error) {
 	return fd, nil
 }
 
-func drain(fd int) []arpFrame {
-	var out []arpFrame
-	buf := make([]byte, 2048)
+func parseIPv4(p []byte, f *wireFrame) bool {
+	if len(p) < 20 || p[0]>>4 != 4 {
+		return false
+	}
+	f.srcIP, f.dstIP = append([]byte(nil), p[12:16]...), append([]byte(nil), p[16:20]...)
+	ihl := int(p[0]&15) * 4
+	if p[9] == 1 && len(p) >= ihl+8 && p[ihl] == 8 {
+		f.kind = "icmp"
+	}
+	return true
+}
+
+func drainSocket(fd int, tip net.IP) []wireFrame {
+	var out []wireFrame
+	buf := make([]byte, 4096)
 	for {
 		n, from, err := syscall.Recvfrom(fd, buf, 0)
 		if err != nil {
 			return out // EAGAIN after the timeout: nothing more queued
 		}
 		ll, ok := from.(*syscall.SockaddrLinklayer)
-		if !ok || n < 14+28 {
+		if !ok || ll.Pkttype == 4 || n < 14 {
 			continue
 		}
 		b := buf[:n]
-		if b[12] != 0x08 || b[13] != 0x06 {
+		f := wireFrame{ifindex: ll.Ifindex, ethSrc: append([]byte(nil), b[6:12]...), kind: "other"}
+		switch {
+		case b[12] == 0x08 && b[13] == 0x06 && n >= 14+24:
+			a := b[14:]
+			if int(a[6])<<8|int(a[7]) != 1 {
+				continue // not a request (e.g. the kernel answering for an address it owns)
+			}
+			f.sha = append([]byte(nil), a[8:14]...)
+			switch {
+			case n >= 14+28 && net.IP(a[24:28]).Equal(tip):
+				f.kind, f.srcIP, f.dstIP = "arp", append([]byte(nil), a[14:18]...), append([]byte(nil), a[24:28]...)
+			case net.IP(a[20:24]).Equal(tip) && allZero(a[14:20]):
+				// a 24-byte ARP body: the sender protocol address is missing altogether (nil SrcIP)
+				f.kind, f.srcIP, f.dstIP = "arp", nil, append([]byte(nil), a[20:24]...)
+			default:
+				continue
+			}
+		case b[12] == 0x08 && b[13] == 0x00:
+			if !parseIPv4(b[14:], &f) || !net.IP(f.dstIP).Equal(tip) {
+				continue
+			}
+		default:
 			continue
 		}
-		a := b[14:]
-		f := arpFrame{ifindex: ll.Ifindex, outgoing: ll.Pkttype == 4,
-			ethSrc: append([]byte(nil), b[6:12]...), op: int(a[6])<<8 | int(a[7]),
-			sha: append([]byte(nil), a[8:14]...), spa: append([]byte(nil), a[14:18]...), tpa: append([]byte(nil), a[24:28]...), raw: append([]byte(nil), a...)}
 		out = append(out, f)
 	}
+}
+
+func drainTuns(tip net.IP) ([]wireFrame, []string) {
+	var out []wireFrame
+	var garbage []string
+	buf := make([]byte, 4096)
+	for idx, t := range tunFiles {
+		for {
+			n, err := syscall.Read(int(t.Fd()), buf)
+			if err != nil || n <= 0 {
+				break
+			}
+			f := wireFrame{ifindex: idx, tun: true, kind: "other"}
+			if parseIPv4(buf[:n], &f) {
+				if net.IP(f.dstIP).Equal(tip) {
+					out = append(out, f)
+				}
+				continue
+			}
+			if buf[0]>>4 == 6 {
+				continue // IPv6 chatter of the kernel (router solicitations)
+			}
+			garbage = append(garbage, fmt.Sprintf("%d bytes not starting with an IPv4 header read from tun index %d: %s", n, idx, hex.EncodeToString(buf[:minInt(n, 34)])))
+		}
+	}
+	return out, garbage
 }
 
 func allZero(b []byte) bool {
@@ -88,93 +182,194 @@ func uniq(xs []string) []string {
 	return out
 }
 
-func runWire(o CaseOut, argv []string, ifs []IfaceOut) CaseOut {
-	// what will the option code choose? (the same real code, entry 0) -- only to decide whether
-	// the engine can start at all on that interface; it is NOT what gets compared
-	pre := command.VerifC17ScanRange(append(append([]string{}, argv...), o.Target))
+type cmdJob struct {
+	Argv []string `json:"argv"`
+}
+
+type cmdResult struct {
+	Err  string `json:"err"`
+	Text string `json:"text"`
+}
+
+// runCommandIsolated runs one sx command line in a process of its own (same namespace).
+func runCommandIsolated(argv []string) (cmdResult, string) {
+	in, _ := json.Marshal(cmdJob{Argv: argv})
+	cmd := exec.Command("/proc/self/exe", "-runcmd")
+	cmd.SysProcAttr = &syscall.SysProcAttr{Pdeathsig: syscall.SIGKILL}
+	cmd.Stdin = bytes.NewReader(in)
+	var stdout, stderr bytes.Buffer
+	cmd.Stdout, cmd.Stderr = &stdout, &stderr
+	if err := cmd.Start(); err != nil {
+		return cmdResult{}, "cannot start the command process: " + err.Error()
+	}
+	done := make(chan error, 1)
+	go func() { done <- cmd.Wait() }()
+	select {
+	case err := <-done:
+		if err != nil {
+			return cmdResult{}, fmt.Sprintf("%v: %s", err, head(stripLogs(stderr.String()), 1800))
+		}
+	case <-time.After(30 * time.Second):
+		cmd.Process.Kill()
+		return cmdResult{}, "the command did not return within 30 s"
+	}
+	var res cmdResult
+	if err := json.Unmarshal(bytes.TrimSpace(stdout.Bytes()), &res); err != nil {
+		return cmdResult{}, "bad output of the command process: " + head(stdout.String(), 300)
+	}
+	return res, ""
+}
+
+func runCmdMode() {
+	var job cmdJob
+	if err := json.NewDecoder(os.Stdin).Decode(&job); err != nil {
+		fmt.Fprintln(os.Stderr, "runcmd: bad job:", err)
+		os.Exit(3)
+	}
+	realStdout := os.Stdout
+	if devnull, err := os.OpenFile(os.DevNull, os.O_WRONLY, 0); err == nil {
+		os.Stdout = devnull
+	}
+	err := command.VerifC17RunCommand(job.Argv)
+	res := cmdResult{Err: command.VerifC17ErrClass(err)}
+	if err != nil {
+		res.Text = err.Error()
+	}
+	b, _ := json.Marshal(res)
+	realStdout.Write(append(b, '\n'))
+}
+
+func head(s string, n int) string {
+	if len(s) > n {
+		return s[:n]
+	}
+	return s
+}
+
+// zap writes JSON log lines to stderr: drop them, keep the crash report
+func stripLogs(s string) string {
+	var keep []string
+	for _, l := range strings.Split(s, "\n") {
+		if !strings.HasPrefix(l, "{\"level\"") {
+			keep = append(keep, l)
+		}
+	}
+	return strings.Join(keep, "\n")
+}
+
+func runWire(o CaseOut, argv []string, ifs []IfaceOut, cacheFile string) CaseOut {
 	byName := map[string]IfaceOut{}
 	byIndex := map[int]IfaceOut{}
 	for _, f := range ifs {
 		byName[f.Name], byIndex[f.Index] = f, f
 	}
-	if pre.Err == nil && pre.SrcMAC != nil {
+	tip := net.ParseIP(o.Target).To4()
+	// What will the option code choose? (the same real code, entries 0/1) -- used ONLY to decide
+	// whether anything can be observed at all on that interface; it is NOT what gets compared.
+	var pre command.VerifC17Result
+	var full []string
+	if o.Entry == 2 {
+		pre = command.VerifC17ScanRange(append(append([]string{}, argv...), o.Target))
+		full = append(append([]string{"arp"}, argv...), "--exit-delay", "60ms", o.Target)
+	} else {
+		pre = command.VerifC17IPScan(append(append([]string{}, argv...), "--arp-cache", cacheFile, o.Target))
+		full = append(append([]string{"icmp"}, argv...), "--arp-cache", cacheFile, "--exit-delay", "60ms", o.Target)
+	}
+	willSend := pre.Err == nil && (o.Entry == 3 || pre.SrcMAC != nil)
+	if willSend {
 		f, ok := byName[pre.IfaceName]
-		if !ok || !f.Up || f.MAC == nil || f.Peer == 0 || !byIndex[f.Peer].Up {
-			o.Err, o.ErrText = "wire-skip", "the chosen interface (or its veth peer) is down or not a veth: nothing can be observed"
+		_, isTun := tunFiles[f.Index]
+		switch {
+		case !ok || !f.Up:
+			o.Err, o.ErrText = "wire-skip", "the chosen interface is down: the engine cannot send"
+			return o
+		case isTun && pre.SrcMAC != nil:
+			o.Err, o.ErrText = "wire-skip", "--srcmac on a MAC-less tun device: Ethernet framing on a raw-IP device (see notes, deviation 4)"
+			return o
+		case isTun:
+		case f.MAC == nil || f.Peer == 0 || !byIndex[f.Peer].Up:
+			o.Err, o.ErrText = "wire-skip", "the chosen interface is neither a tun device nor a veth with its peer up: nothing can be observed"
 			return o
 		}
 	}
-	tip := net.ParseIP(o.Target).To4()
+	if tip == nil {
+		o.Err, o.ErrText = "wire-skip", "not an IPv4 host target"
+		return o
+	}
 	fd, err := openCapture()
 	if err != nil {
 		o.Err, o.ErrText = "wire-skip", "capture socket: "+err.Error()
 		return o
 	}
 	defer syscall.Close(fd)
-	args := append(append([]string{}, argv...), "--exit-delay", "60ms", o.Target)
-	errRun := command.VerifC17RunARP(args)
+	drainTuns(tip) // forget whatever was sent before this case
+	res, crash := runCommandIsolated(full)
 	time.Sleep(20 * time.Millisecond)
-	frames := drain(fd)
-	if os.Getenv("C17_DEBUG") != "" {
-		for _, f := range frames {
-			fmt.Fprintf(os.Stderr, "frame if=%d out=%v op=%d src=%x sha=%x spa=%x tpa=%x\n", f.ifindex, f.outgoing, f.op, f.ethSrc, f.sha, f.spa, f.tpa)
-		}
-		fmt.Fprintf(os.Stderr, "run err=%v frames=%d\n", errRun, len(frames))
+	frames := drainSocket(fd, tip)
+	tframes, garbage := drainTuns(tip)
+	frames = append(frames, tframes...)
+	if crash != "" {
+		o.Err, o.ErrText = "wire-crash", crash
+		return o
 	}
-	o.Err = command.VerifC17ErrClass(errRun)
-	if errRun != nil {
-		o.ErrText = errRun.Error()
+	o.Err, o.ErrText = res.Err, res.Text
+	want := "arp"
+	if o.Entry == 3 {
+		want = "icmp"
 	}
 	w := &WireOut{}
-	var outIf []int
+	var via []string
+	rawIP := false
 	for _, f := range frames {
-		// frames RECEIVED on an interface left through its veth peer (sx transmits through a TX ring
-		// that bypasses the packet taps of the sending device, so no OUTGOING copies exist)
-		if f.op != 1 || f.outgoing || tip == nil {
-			continue
-		}
-		spa := hex.EncodeToString(f.spa)
-		switch {
-		case net.IP(f.tpa).Equal(tip):
-		case net.IP(f.raw[20:24]).Equal(tip) && allZero(f.raw[14:20]):
-			// a 24-byte ARP body: the sender protocol address is missing altogether (nil SrcIP)
-			spa = "nil"
-		default:
+		if f.kind != want {
 			continue
 		}
 		w.Frames++
-		sender := byIndex[f.ifindex].Peer
-		outIf = append(outIf, sender)
-		w.SrcMACs = append(w.SrcMACs, hex.EncodeToString(f.ethSrc))
-		w.ArpSHA = append(w.ArpSHA, hex.EncodeToString(f.sha))
-		w.ArpSPA = append(w.ArpSPA, spa)
-	}
-	w.SrcMACs, w.ArpSHA, w.ArpSPA = uniq(w.SrcMACs), uniq(w.ArpSHA), uniq(w.ArpSPA)
-	seen := map[int]bool{}
-	for _, x := range outIf {
-		if !seen[x] {
-			seen[x] = true
-			w.Others = append(w.Others, byIndex[x].Name)
+		if f.tun {
+			via = append(via, byIndex[f.ifindex].Name)
+			w.SrcMACs = append(w.SrcMACs, "nil")
+			rawIP = true
+		} else {
+			via = append(via, byIndex[byIndex[f.ifindex].Peer].Name)
+			w.SrcMACs = append(w.SrcMACs, hex.EncodeToString(f.ethSrc))
+		}
+		if f.sha != nil {
+			w.ArpSHA = append(w.ArpSHA, hex.EncodeToString(f.sha))
+		}
+		if f.srcIP == nil {
+			w.ArpSPA = append(w.ArpSPA, "nil")
+		} else {
+			w.ArpSPA = append(w.ArpSPA, hex.EncodeToString(f.srcIP))
 		}
 	}
-	sort.Strings(w.Others)
+	w.SrcMACs, w.ArpSHA, w.ArpSPA, w.Others = uniq(w.SrcMACs), uniq(w.ArpSHA), uniq(w.ArpSPA), uniq(via)
+	w.Garbage = garbage
 	o.Wire = w
-	if errRun != nil {
+	if os.Getenv("C17_DEBUG") != "" {
+		fmt.Fprintf(os.Stderr, "wire %v: err=%q frames=%d via=%v macs=%v src=%v garbage=%v\n", full, res.Err, w.Frames, w.Others, w.SrcMACs, w.ArpSPA, garbage)
+	}
+	if res.Err != "" {
 		return o
 	}
-	// the observation proper: the interface the frames left through and the source they carried
-	if len(w.Others) == 1 && len(w.SrcMACs) == 1 && len(w.ArpSHA) == 1 && len(w.ArpSPA) == 1 && w.SrcMACs[0] == w.ArpSHA[0] {
+	// the observation proper: the interface the probes left through and the source they carried
+	consistent := len(w.Others) == 1 && len(w.SrcMACs) == 1 && len(w.ArpSPA) == 1 && (want != "arp" || (len(w.ArpSHA) == 1 && w.ArpSHA[0] == w.SrcMACs[0]))
+	switch {
+	case len(garbage) > 0 && w.Frames == 0:
+		o.Err, o.ErrText = "wire-garbage", garbage[0]
+	case w.Frames == 0:
+		o.Err, o.ErrText = "wire-noframes", "the command succeeded but no probe for the target was seen on any interface"
+	case !consistent:
+		o.Err, o.ErrText = "wire-mixed", "probes left through several interfaces or with several sources"
+	default:
 		f := byName[w.Others[0]]
-		o.IfIndex, o.IfName = f.Index, f.Name
-		o.SrcMAC = &w.ArpSHA[0]
+		o.IfIndex, o.IfName, w.On = f.Index, f.Name, f.Name
+		if w.SrcMACs[0] != "nil" {
+			o.SrcMAC = &w.SrcMACs[0]
+		}
 		if w.ArpSPA[0] != "nil" {
 			o.SrcIP = &w.ArpSPA[0]
 		}
-		w.On = f.Name
-	} else if w.Frames == 0 {
-		o.Err, o.ErrText = "wire-noframes", "the arp command succeeded but no ARP request for the target was seen on any interface"
-	} else {
-		o.Err, o.ErrText = "wire-mixed", "ARP requests left through several interfaces or with several sources"
+		o.VPN = rawIP
 	}
 	return o
 }
